@@ -180,8 +180,9 @@ def expansion_late(hist, p_add):
 
 # --------------------------------------------------------------------------
 
-def run_listen(hist, p_add, p_rm, via_helpers, rm_mode='global', p_add2=None):
-    """listener added before event index p_add, removed before event index p_rm (None = never)"""
+def run_listen(hist, p_add, p_rm, via_helpers, rm_mode='global', p_add2=None, p_consensus=None):
+    """listener added before event index p_add, removed before event index p_rm (None = never); p_consensus: a new consensus
+    that no longer lists relay 2 arrives before that event (circuits keep their hops; nothing is announced twice)"""
     viol = []
     with World() as w:
         impl = Impl(w)
@@ -193,6 +194,11 @@ def run_listen(hist, p_add, p_rm, via_helpers, rm_mode='global', p_add2=None):
             if i == p_add:
                 impl.state.add_circuit_listener(rec)
                 impl.state.add_stream_listener(rec)
+            if p_consensus is not None and i == p_consensus:
+                from mc.simtor import ns_lines, RELAYS
+                from refs import ctlcodec
+                impl.sim.event_bytes(ctlcodec.encode_event('NEWCONSENSUS', 'data', [''] + ns_lines([r for r in RELAYS if r[1] != 2])))
+                impl.sim.pump()
             if p_add2 is not None and i == p_add2:
                 # the same listener registered a second time: still one notification per transition
                 impl.state.add_circuit_listener(rec)
@@ -368,6 +374,43 @@ class Raises(Rec):
             attr(*a, **kw)
             raise RuntimeError('listener raises in %s' % name)
         return wrapped
+
+
+def run_resolve(p_add, end):
+    """a DNS-request stream: NEWRESOLVE, SENTRESOLVE <circuit> (the stream is on that circuit now), then `end`.  Judged: the one
+    stream_attach at SENTRESOLVE and the one end notification; what NEWRESOLVE itself is announced as is not stated"""
+    viol = []
+    with World() as w:
+        impl = Impl(w)
+        rec = Rec()
+        lines = [('CIRC', M.circ_line(1, 'LAUNCHED', 0)), ('CIRC', M.circ_line(1, 'EXTENDED', 1)), ('CIRC', M.circ_line(1, 'BUILT', HOPS)),
+                 ('STREAM', M.stream_line(2, 'NEWRESOLVE', 0, 'www.example.com:0', 'PURPOSE=DNS_REQUEST')),
+                 ('STREAM', M.stream_line(2, 'SENTRESOLVE', 1, 'www.example.com:0')),
+                 ('STREAM', M.stream_line(2, end, 1, 'www.example.com:0', 'REASON=DONE' if end == 'CLOSED' else 'REASON=RESOLVEFAILED'))]
+        for i, (ev, line) in enumerate(lines):
+            if i == p_add:
+                impl.state.add_circuit_listener(rec)
+                impl.state.add_stream_listener(rec)
+            before = len(rec.calls)
+            impl.event(ev, line)
+            got = [c for c in rec.calls[before:]]
+            if i == 4 and i >= p_add:
+                if [c[:3] for c in got] != [('stream_attach', 2, 1)]:
+                    viol.append(('missing-notification' if not got else 'extra-notification', 'ATTACH/resolve-stream',
+                                 'STREAM %s: listeners heard %r, reference one stream_attach(2, circuit 1)' % (line, got)))
+                s2 = impl.state.streams.get(2)
+                if s2 is None or s2.circuit is not impl.state.circuits.get(1) or s2 not in impl.state.circuits[1].streams:
+                    viol.append(('attachment', 'resolve-stream', 'after SENTRESOLVE 1 the stream is not listed under circuit 1'))
+            if i == 5 and i >= p_add:
+                want = 'stream_closed' if end == 'CLOSED' else 'stream_failed'
+                if [c[0] for c in got] != [want]:
+                    viol.append(('missing-notification' if not got else 'extra-notification', '%s/resolve-stream' % end,
+                                 'STREAM %s: listeners heard %r, reference one %s' % (line, got, want)))
+        errs = w.errors()
+        if errs:
+            viol.append(('logged-error', errs[0][1], '%r' % (errs[:1],)))
+        obs = tuple(c[0] for c in rec.calls)
+    return dict(viol=viol, obs=obs)
 
 
 def run_raising(hist):
@@ -579,6 +622,7 @@ def tasks(tier, seed):
     for fam in ('listen', 'waits', 'close'):
         for i in range(0, len(H), per):
             out.append((fam, i, min(len(H), i + per)))
+    out.append(('resolve', 0, 0))
     return out
 
 
@@ -592,6 +636,12 @@ def rec_exec(acc, key, r, replay, cost):
 
 def run_task(param, acc):
     fam, lo, hi = param
+    if fam == 'resolve':
+        for p_add in (0, 3, 4):
+            for end in ('CLOSED', 'FAILED'):
+                r = run_resolve(p_add, end)
+                rec_exec(acc, ('resolve', (p_add, end)), r, dict(fam='resolve', tier=acc.tier, h=0, p_add=p_add, end=end), cost=60 + p_add)
+        return
     H = hist_for(acc.tier)
     last = None
     for hi_idx in range(lo, hi):
@@ -621,6 +671,12 @@ def run_task(param, acc):
                         rec_exec(acc, ('listen', labels, p_add, p_rm, rm_mode, p_add2), r,
                                  dict(fam='listen', tier=acc.tier, h=hi_idx, p_add=p_add, p_rm=p_rm, rm_mode=rm_mode, p_add2=p_add2),
                                  cost=n * 10 + p_add + (0 if p_rm is None else 1) + (0 if p_add2 is None else 2))
+                    if p_rm is None and p_add in (0, 1):
+                        for p_cons in range(1, n + 1):
+                            r = run_listen(hist, p_add, None, False, p_consensus=p_cons)
+                            r['viol'] = [(c, f + '/consensus-replaced-meanwhile', d) for c, f, d in r['viol']]
+                            rec_exec(acc, ('listen', labels, p_add, 'cons', p_cons), r,
+                                     dict(fam='listen', tier=acc.tier, h=hi_idx, p_add=p_add, p_rm=None, p_consensus=p_cons), cost=n * 10 + p_add + 3)
                     if acc.want_recheck(0.01):
                         r2 = run_listen(hist, p_add, p_rm, False)
                         r1 = run_listen(hist, p_add, p_rm, False)
@@ -653,9 +709,14 @@ def run_task(param, acc):
 
 
 def replay(p):
+    if p['fam'] == 'resolve':
+        r = run_resolve(p['p_add'], p['end'])
+        return dict(violations=[dict(signature='%s/%s' % (c, f), what=d) for c, f, d in r['viol']], log=[repr(r['obs'])])
     hist = hist_for(p['tier'])[p['h']]
     if p['fam'] == 'listen':
-        r = run_listen(hist, p['p_add'], p['p_rm'], False, p.get('rm_mode', 'global'), p.get('p_add2'))
+        r = run_listen(hist, p['p_add'], p['p_rm'], False, p.get('rm_mode', 'global'), p.get('p_add2'), p.get('p_consensus'))
+        if p.get('p_consensus') is not None:
+            r['viol'] = [(c, f + '/consensus-replaced-meanwhile', d) for c, f, d in r['viol']]
         if p.get('p_add2') is not None or p.get('rm_mode') == 'object':
             r['viol'] = [(c, f + ('/registered-twice' if p.get('p_add2') is not None else '/unlisten-on-object'), d) for c, f, d in r['viol']]
     elif p['fam'] == 'raising':
@@ -680,7 +741,7 @@ def meta(tier):
              'before or after the CLOSED event x {circuit, stream}); non-trivial: all (every case places at least one operation '
              'inside a history)' % (8 if tier == 'quick' else 11),
         bounds=dict(history_len=(8 if tier == 'quick' else 11), histories=len(hist_for(tier)), circuits=1, streams=1),
-        assumptions=['NEWRESOLVE streams are outside this alphabet (the listener interface has no callback for them)',
+        assumptions=['for DNS-request streams only the attach at SENTRESOLVE and the end notification are judged (the listener interface has no callback for NEWRESOLVE itself)',
                      'a listener added late hears nothing for transitions that happened before it was added',
                      'removing a global listener = unlisten() on the live objects + removal from the global list',
                      'a close() requested after Tor reported the object gone (on the reference the application still holds) must complete; Tor answers that command 552; whether it completes with success or with that error is not judged'])
